@@ -56,8 +56,8 @@ func (sm *SortedMap[K, V]) Keys() []K {
 }
 
 func (sm *SortedMap[K, V]) All() iter.Seq2[K, V] {
-	sm.ensureSorted()
 	return func(yield func(K, V) bool) {
+		sm.ensureSorted()
 		for _, k := range sm.list {
 			if !yield(k, sm.m[k]) {
 				return
